@@ -16,6 +16,7 @@ import (
 	"encoding/json"
 	"fmt"
 	"math"
+	"math/big"
 	"os"
 	"runtime"
 	"sort"
@@ -26,9 +27,14 @@ import (
 	"github.com/33cn/chain33/common/crypto"
 	clog "github.com/33cn/chain33/common/log"
 	_ "github.com/33cn/chain33/system/address"
+	rpctypes "github.com/33cn/chain33/rpc/ethrpc/types"
 	_ "github.com/33cn/chain33/system/crypto/init"
+	"github.com/33cn/chain33/system/crypto/secp256k1eth"
 	cty "github.com/33cn/chain33/system/dapp/coins/types"
 	"github.com/33cn/chain33/types"
+	ecommon "github.com/ethereum/go-ethereum/common"
+	etypes "github.com/ethereum/go-ethereum/core/types"
+	ethcrypto "github.com/ethereum/go-ethereum/crypto"
 	"google.golang.org/protobuf/proto"
 	"verifharness/lib"
 	"verifharness/txmut"
@@ -136,7 +142,8 @@ func init() {
 		devnull, _ := os.OpenFile(os.DevNull, os.O_WRONLY, 0)
 		os.Stdout = devnull // the sm2 driver prints to stdout
 		if ci.Cfg.Init {
-			crypto.Init(&crypto.Config{EnableTypes: ci.Cfg.EnableTypes, EnableHeight: ci.Cfg.EnableHeight}, nil)
+			crypto.Init(&crypto.Config{EnableTypes: ci.Cfg.EnableTypes, EnableHeight: ci.Cfg.EnableHeight},
+				map[string][]byte{"secp256k1eth": []byte(`{"evmChainID":3999}`)})
 		}
 		return runConfig(&ci), nil
 	})
@@ -332,7 +339,60 @@ func (s *cstate) noneCases(base int) {
 	}
 }
 
-var payloadKinds = []string{"undecodable", "random", "empty", "coins-transfer", "coins-transfer-note", "group-member", "group-head"}
+var payloadKinds = []string{"undecodable", "random", "empty", "coins-transfer", "coins-transfer-note", "group-member", "group-head", "eth-wrapped"}
+
+var nodeCfg *types.Chain33Config
+var nodeCfgOnce sync.Once
+
+// ethWrapped builds what eth_sendRawTransaction builds: an ethereum transaction signed with the sender's key
+// (London signer), wrapped by rpc/ethrpc/types.AssembleChain33Tx into a chain33 evm transaction whose signature is
+// the ethereum signature and whose note carries the raw ethereum transaction.
+func ethWrapped(r *lib.Rng) (*types.Transaction, string) {
+	nodeCfgOnce.Do(func() { nodeCfg = types.NewChain33Config(types.GetDefaultCfgstring()) })
+	kb := r.Bytes(32)
+	kb[0] &= 0x7f
+	kb[1] |= 1
+	key, err := ethcrypto.ToECDSA(kb)
+	if err != nil {
+		return nil, err.Error()
+	}
+	chainID := big.NewInt(secp256k1eth.GetEvmChainID())
+	to := ecommon.BytesToAddress(r.Bytes(20))
+	nonce := uint64(r.Intn(1000000))
+	value := new(big.Int).Mul(big.NewInt(int64(r.Range(1, 1000000))), big.NewInt(1e10))
+	var inner etypes.TxData
+	sub := ""
+	switch r.Intn(3) {
+	case 0:
+		sub = "dynamic-fee coins transfer"
+		inner = &etypes.DynamicFeeTx{ChainID: chainID, Nonce: nonce, GasTipCap: big.NewInt(1e9), GasFeeCap: big.NewInt(1e10), Gas: uint64(r.Range(21000, 3000000)), To: &to, Value: value}
+	case 1:
+		sub = "dynamic-fee contract call"
+		inner = &etypes.DynamicFeeTx{ChainID: chainID, Nonce: nonce, GasTipCap: big.NewInt(1e9), GasFeeCap: big.NewInt(1e10), Gas: uint64(r.Range(21000, 3000000)), To: &to, Value: big.NewInt(0), Data: r.Bytes(r.Range(4, 100))}
+	default:
+		sub = "legacy coins transfer"
+		inner = &etypes.LegacyTx{Nonce: nonce, GasPrice: big.NewInt(1e10), Gas: uint64(r.Range(21000, 3000000)), To: &to, Value: value}
+	}
+	stx, err := etypes.SignNewTx(key, etypes.NewLondonSigner(chainID), inner)
+	if err != nil {
+		return nil, err.Error()
+	}
+	v, rr, ss := stx.RawSignatureValues()
+	cv, err := rpctypes.CaculateRealV(v, stx.ChainId().Uint64(), stx.Type())
+	if err != nil {
+		return nil, err.Error()
+	}
+	sig := make([]byte, 65)
+	copy(sig[32-len(rr.Bytes()):32], rr.Bytes())
+	copy(sig[64-len(ss.Bytes()):64], ss.Bytes())
+	sig[64] = cv
+	tx := rpctypes.AssembleChain33Tx(stx, sig, ethcrypto.FromECDSAPub(&key.PublicKey), nodeCfg)
+	if tx == nil {
+		return nil, "AssembleChain33Tx returned nil"
+	}
+	tx.Expire = 4102444800 + int64(r.Intn(1000)) // AssembleChain33Tx uses the wall clock here; pinned for determinism
+	return tx, sub
+}
 
 func genTx(r *lib.Rng, kind string, chainID int32) *types.Transaction {
 	tx := &types.Transaction{Execer: []byte(lib.Pick(r, []string{"coins", "token", "none", "user.write", "user.p.game.coins", "evm", "user.p.x.evm"})),
@@ -375,7 +435,19 @@ func (s *cstate) txCase(idx int, driver string, addrID int32) {
 	signer := txmut.NewSigner(r, driver)
 	other := txmut.NewSigner(r, driver)
 	kind := payloadKinds[idx%len(payloadKinds)]
+	if kind == "eth-wrapped" && (driver != "secp256k1eth" || !cfg.Init) {
+		kind = "random" // the wrapped form exists for secp256k1eth only; without crypto.Init the driver's chain id / precision are unset
+	}
 	tx := genTx(r, kind, 33)
+	wrapped := kind == "eth-wrapped"
+	if wrapped {
+		var sub string
+		if tx, sub = ethWrapped(r); tx == nil {
+			s.count("eth_wrapped_build_failed:"+sub, 1)
+			return
+		}
+		s.seen("eth_wrapped_kinds", sub)
+	}
 	if kind == "group-member" || kind == "group-head" {
 		// header / next / groupCount populated by the client library
 		g, err := types.CreateTxGroup([]*types.Transaction{tx, genTx(r, "random", 33), genTx(r, "random", 33)}, 100000)
@@ -390,7 +462,11 @@ func (s *cstate) txCase(idx int, driver string, addrID int32) {
 		}
 	}
 	ty := signer.Ty(addrID)
-	tx.Sign(ty, signer.Priv)
+	if wrapped {
+		ty = tx.Signature.Ty // signed by the ethereum key inside ethWrapped
+	} else {
+		tx.Sign(ty, signer.Priv)
+	}
 	wit := func(extra map[string]any) map[string]any {
 		m := map[string]any{"driver": driver, "address_id": addrID, "payload_kind": kind, "signed_tx_hex": hex.EncodeToString(types.Encode(tx)), "config": cfg}
 		for k, v := range extra {
@@ -461,7 +537,11 @@ func (s *cstate) txCase(idx int, driver string, addrID int32) {
 			return
 		}
 		if ok {
-			s.violate(idx, "verifies-after-mutation:"+path+":"+mkind+":"+driver, wit(map[string]any{"height": hEnabled, "mutation": path + ":" + mkind, "mutant_tx_hex": hex.EncodeToString(types.Encode(mt))}),
+			shape := "verifies-after-mutation:" + path + ":" + mkind + ":" + driver
+			if wrapped {
+				shape = "verifies-after-mutation:eth-wrapped:" + path + ":" + mkind
+			}
+			s.violate(idx, shape, wit(map[string]any{"height": hEnabled, "mutation": path + ":" + mkind, "mutant_tx_hex": hex.EncodeToString(types.Encode(mt))}),
 				"%s signature still verifies at height %d after mutation %s:%s", driver, hEnabled, path, mkind)
 		} else {
 			rejected++
@@ -499,6 +579,9 @@ func (s *cstate) txCase(idx int, driver string, addrID int32) {
 	other2.Sign(ty, signer.Priv)
 	other3 := txmut.CloneTx(tx)
 	other3.Sign(ty, other.Priv)
+	if wrapped {
+		s.count("eth_wrapped_transactions", 1)
+	}
 	rev := func(b []byte) []byte {
 		o := make([]byte, len(b))
 		for i := range b {
